@@ -134,7 +134,7 @@ type board struct {
 	parked  atomic.Int64      // deliveries currently parked in a blocked channel
 	wsFail  atomic.Int64      // websocket publishes answered with an error
 	wsSeq   atomic.Int64
-	wsEvery int64 // every n-th publish fails (0: never)
+	wsEvery atomic.Int64 // every n-th publish fails (0: never)
 }
 
 func (b *board) behaviour(name string) (string, chan struct{}) {
@@ -187,7 +187,7 @@ type recPublisher struct{ b *board }
 func (p *recPublisher) Publish(channel string, data []byte, _ ...centrifuge.PublishOption) (centrifuge.PublishResult, error) {
 	p.b.rec.add(delivery{Channel: chWS, Payload: append([]byte(nil), data...), Sync: insideAdd(), Extra: channel})
 	n := p.b.wsSeq.Add(1)
-	if p.b.wsEvery > 0 && n%p.b.wsEvery == 0 {
+	if every := p.b.wsEvery.Load(); every > 0 && n%every == 0 {
 		p.b.wsFail.Add(1)
 		return centrifuge.PublishResult{}, errors.New("verif: injected websocket publish failure")
 	}
@@ -392,7 +392,7 @@ func (e *env) runHistory(caseID string, rng *rand.Rand, hist gen.History, pFail 
 	b.mu.Lock()
 	b.beh, b.release = beh, release
 	b.mu.Unlock()
-	b.wsEvery = []int64{0, 2, 3}[rng.Intn(3)]
+	b.wsEvery.Store([]int64{0, 2, 3}[rng.Intn(3)])
 	b.rec.take()
 	released := false
 	defer func() {
